@@ -132,6 +132,12 @@ func cmdLayout(args []string) int {
 	fmt.Println(c.FnName(fn), "paths:", len(evs), why)
 	for i, le := range evs {
 		fmt.Printf("-- path %d ok=%v cond=[%s] bools=%v\n", i, le.OK, strings.Join(le.Cond, "; "), le.Bools)
+		var fks []string
+		for k := range le.Fields {
+			fks = append(fks, k)
+		}
+		sort.Strings(fks)
+		fmt.Printf("   fields=%v\n", fks)
 		for _, kind := range []string{"len", "field", "wire"} {
 			m := le.lastWrites(kind)
 			var ks []string
